@@ -530,8 +530,11 @@ impl<'p> Harness<'p> {
         let cands: Vec<(Tag, Incr<Val>)> = cands
             .into_iter()
             .filter(|(t, _)| {
+                // (a constant created inside a bind is not exported: whether `zip` folds it
+                // depends on its validity, which only the engine knows)
                 self.model.has(*t)
                     && self.model.node(*t).valid
+                    && !matches!(self.model.node(*t).kind, MKind::Const(_))
                     && !self.nodes.iter().any(|h| h.tag == *t)
             })
             .collect();
@@ -706,6 +709,9 @@ impl<'p> Harness<'p> {
     fn stabilise_inner(&mut self, flush: bool) {
         if self.ended {
             return;
+        }
+        if !flush {
+            self.prune_orphans_before_stabilise();
         }
         let r = self.model.round;
         self.trace.push(if flush { format!("stabilise  [flush, round {r}]") } else { format!("stabilise  [round {r}]") });
@@ -1081,6 +1087,45 @@ impl<'p> Harness<'p> {
             let st = self.st().clone();
             if let Ok(true) = guarded(|| st.is_stable()) {
                 self.fail("C08", "is-stable", format!("after round {r}: an observed variable was written during the stabilise but is_stable() is true"));
+            }
+        }
+    }
+
+    /// An observed bind-created node whose defining bind will not be necessary for the coming
+    /// stabilise (its observers were dropped since) is outside the properties: drop those
+    /// observers first.
+    fn prune_orphans_before_stabilise(&mut self) {
+        loop {
+            let live: Vec<usize> = (0..self.obs.len())
+                .filter(|i| matches!(self.obs[*i].state, OState::Created | OState::InUse))
+                .collect();
+            let roots: Vec<Tag> = live.iter().map(|i| self.obs[*i].node).collect();
+            let all: HashSet<Tag> = self.model.cone(&roots).into_iter().collect();
+            let mut victim = None;
+            for &oi in &live {
+                let cone = self.model.cone(&[self.obs[oi].node]);
+                let orphan = cone.iter().any(|t| {
+                    let n = self.model.node(*t);
+                    n.valid
+                        && match n.scope {
+                            Some((b, _)) => !all.contains(&b) || !self.model.node(b).valid,
+                            None => false,
+                        }
+                });
+                if orphan {
+                    victim = Some(oi);
+                    break;
+                }
+            }
+            let Some(oi) = victim else { return };
+            self.classes.orphan_flushes += 1;
+            self.trace.push(format!("-- o{oi} would observe a node whose bind is no longer needed: dropped"));
+            let n = self.obs_tbl.borrow()[oi].clones.len();
+            for ci in 0..n {
+                self.act_drop_obs(oi, ci);
+            }
+            if self.ended {
+                return;
             }
         }
     }
